@@ -2,6 +2,8 @@ import CollectionsC.Proofs.HashTable
 import CollectionsC.Proofs.HashTableIter
 import CollectionsC.Proofs.HashTableDerived
 import CollectionsC.Proofs.HashSet
+import CollectionsC.Proofs.HashSetLedger
+import CollectionsC.Proofs.HashTableHistory
 /-! # C02 — CC_HashTable / CC_HashSet are exact maps / sets under every configuration
 
 Statements and closing proofs only (helpers: `Proofs/HashTable*.lean`, `Proofs/HashSet.lean`).
@@ -34,16 +36,16 @@ of entries (nothing leaked, nothing freed twice); no fault (no out-of-range buck
 an unowned block).  The only input the ideal map takes from the run is whether an insertion was
 refused (`failedOf`), and a refused insertion leaves the map unchanged — see `C08Hash`. -/
 theorem step_refines (c : HCfg) (t : HashTable) (op : Op) (m : Mem) (sp : Map)
-    (h : t.Inv c) (hl : t.size + 2 ≤ m.live) (hs : t.abs.Perm sp) :
+    (h : t.Inv c) (hl : t.size + 2 ≤ liveOf m t.triple) (hs : t.abs.Perm sp) :
     (t.step c op m).1 = (Map.step sp op (HashTable.failedOf op (t.step c op m).1)).1 ∧
     (t.step c op m).2.1.abs.Perm (Map.step sp op (HashTable.failedOf op (t.step c op m).1)).2 ∧
     (t.step c op m).2.1.Inv c ∧
-    (t.step c op m).2.2.live + t.size = m.live + (t.step c op m).2.1.size ∧
+    liveOf (t.step c op m).2.2 t.triple + t.size = liveOf m t.triple + (t.step c op m).2.1.size ∧
     (t.step c op m).2.2.fault = m.fault := by
   have wf := abs_wf c t h
   cases op with
   | add k v =>
-    obtain ⟨a1, a2, a3, a4, a5, a6⟩ := HashTable.add_spec c t k v m h
+    obtain ⟨a1, a2, a3, a4, a5, a6, _⟩ := HashTable.add_spec c t k v m h
     simp only [HashTable.step]
     by_cases hok : (t.add c k v m).1 = .ok
     · obtain ⟨b1, b2, b3⟩ := a2 hok
@@ -67,7 +69,7 @@ theorem step_refines (c : HCfg) (t : HashTable) (op : Op) (m : Mem) (sp : Map)
     rw [g1, g2, Map.contains_perm hs wf k]
     exact ⟨rfl, hs, h, rfl, rfl⟩
   | remove k =>
-    obtain ⟨p1, p2, p3, p4, p5, p6, p7, p8, p9⟩ := HashTable.remove_spec c t k m h (by omega)
+    obtain ⟨p1, p2, p3, p4, p5, p6, p7, p8, p9, _⟩ := HashTable.remove_spec c t k m h (fun _ => by omega)
     simp only [HashTable.step, Map.step]
     rw [p3, p4, Map.lookup_perm hs wf k]
     rw [Map.lookup_perm hs wf k] at p4
@@ -85,7 +87,7 @@ theorem step_refines (c : HCfg) (t : HashTable) (op : Op) (m : Mem) (sp : Map)
       refine ⟨trivial, ?_, p1, by omega, p7⟩
       rw [p2]; exact Map.erase_perm hs k
   | removeAll =>
-    obtain ⟨r1, r2, r3, r4, r5, r6, r7⟩ := HashTable.removeAll_spec c t m h (by omega)
+    obtain ⟨r1, r2, r3, r4, r5, r6, r7, _⟩ := HashTable.removeAll_spec c t m h (by omega)
     simp only [HashTable.step, Map.step]
     refine ⟨trivial, by rw [r2], r1, by omega, r7⟩
 
@@ -95,55 +97,123 @@ the model yields exactly the statuses and out-values of the ideal map (told whic
 refused), and ends in a table holding the ideal map's content, with the invariant, a balanced
 ledger and no fault. -/
 theorem history_refines (c : HCfg) (ops : List Op) (t : HashTable) (m : Mem) (sp : Map)
-    (h : t.Inv c) (hl : t.size + 2 ≤ m.live) (hs : t.abs.Perm sp) :
+    (h : t.Inv c) (hl : t.size + 2 ≤ liveOf m t.triple) (hs : t.abs.Perm sp) :
     (t.run c ops m).1 = (Map.run sp ops (t.run c ops m).2.1).1 ∧
     (t.run c ops m).2.2.1.abs.Perm (Map.run sp ops (t.run c ops m).2.1).2 ∧
     (t.run c ops m).2.2.1.Inv c ∧
-    (t.run c ops m).2.2.2.live + t.size = m.live + (t.run c ops m).2.2.1.size ∧
+    liveOf (t.run c ops m).2.2.2 t.triple + t.size = liveOf m t.triple + (t.run c ops m).2.2.1.size ∧
     (t.run c ops m).2.2.2.fault = m.fault := by
   induction ops generalizing t m sp with
   | nil => exact ⟨rfl, hs, h, rfl, rfl⟩
   | cons op ops ih =>
     obtain ⟨s1, s2, s3, s4, s5⟩ := step_refines c t op m sp h hl hs
-    obtain ⟨i1, i2, i3, i4, i5⟩ := ih (t.step c op m).2.1 (t.step c op m).2.2 _ s3 (by omega) s2
+    have hT := HashTable.step_triple c t op m
+    obtain ⟨i1, i2, i3, i4, i5⟩ := ih (t.step c op m).2.1 (t.step c op m).2.2 _ s3 (by rw [hT]; omega) s2
+    rw [hT] at i4
     simp only [HashTable.run, Map.run, List.headD_cons, List.tail_cons]
     refine ⟨by rw [← s1, ← i1], i2, i3, by omega, by rw [i5, s5]⟩
 
 /-- the size reported after a history is the number of keys of the ideal map -/
 theorem history_size (c : HCfg) (ops : List Op) (t : HashTable) (m : Mem) (sp : Map)
-    (h : t.Inv c) (hl : t.size + 2 ≤ m.live) (hs : t.abs.Perm sp) :
+    (h : t.Inv c) (hl : t.size + 2 ≤ liveOf m t.triple) (hs : t.abs.Perm sp) :
     (t.run c ops m).2.2.1.size = Map.size (Map.run sp ops (t.run c ops m).2.1).2 := by
   obtain ⟨_, h2, h3, _, _⟩ := history_refines c ops t m sp h hl hs
   rw [size_eq c _ h3]; exact Map.size_perm h2
 
-/-- **C02 from the constructor**, for every configured capacity (0 included — it is rounded up to
-1), every hash function and every threshold function: every history on a freshly constructed table
-behaves like the ideal map starting empty. -/
-theorem new_history_refines (c : HCfg) (cap : Nat) (m0 : Mem) (t0 : HashTable)
-    (hnew : (HashTable.new c cap m0).2.1 = some t0) (ops : List Op) :
-    let m1 := (HashTable.new c cap m0).2.2
-    (t0.run c ops m1).1 = (Map.run Map.empty ops (t0.run c ops m1).2.1).1 ∧
-    (t0.run c ops m1).2.2.1.abs.Perm (Map.run Map.empty ops (t0.run c ops m1).2.1).2 ∧
-    (t0.run c ops m1).2.2.1.Inv c ∧ (t0.run c ops m1).2.2.2.fault = m0.fault := by
-  intro m1
-  obtain ⟨_, _, n3, n4, _⟩ := HashTable.new_spec c cap m0
-  obtain ⟨_, q2, q3, q4, _, q6⟩ := n3 t0 hnew
-  have hm : m1.live = m0.live + 2 := q6
-  obtain ⟨r1, r2, r3, _, r5⟩ := history_refines c ops t0 m1 Map.empty q2 (by omega) (by rw [q3]; exact List.Perm.refl _)
+/-- **C02 from the constructor** (configured triple or the C library's), for every configured
+capacity (0 included — it is rounded up to 1), every hash function and every threshold function:
+every history on a freshly constructed table behaves like the ideal map starting empty. -/
+theorem new_history_refines (c : HCfg) (cap : Nat) (tr : Triple) (m0 : Mem) (t0 : HashTable)
+    (hnew : (HashTable.new c cap tr m0).2.1 = some t0) (ops : List Op) :
+    (t0.run c ops (HashTable.new c cap tr m0).2.2).1 = (Map.run Map.empty ops (t0.run c ops (HashTable.new c cap tr m0).2.2).2.1).1 ∧
+    (t0.run c ops (HashTable.new c cap tr m0).2.2).2.2.1.abs.Perm (Map.run Map.empty ops (t0.run c ops (HashTable.new c cap tr m0).2.2).2.1).2 ∧
+    (t0.run c ops (HashTable.new c cap tr m0).2.2).2.2.1.Inv c ∧ (t0.run c ops (HashTable.new c cap tr m0).2.2).2.2.2.fault = m0.fault := by
+  obtain ⟨_, _, n3, n4, _⟩ := HashTable.new_spec c cap tr m0
+  obtain ⟨_, q2, q3, q4, _, q6, q7⟩ := n3 t0 hnew
+  obtain ⟨r1, r2, r3, _, r5⟩ := history_refines c ops t0 (HashTable.new c cap tr m0).2.2 Map.empty q2 (by rw [q7]; omega) (by rw [q3]; exact List.Perm.refl _)
   exact ⟨r1, r2, r3, by rw [r5]; exact n4⟩
 
 /-- whole life cycle (C06 part for this container): construct, run any history under any allocator
-schedule, destroy — every block is released exactly once (the ledger is back where it started) and
-nothing faults -/
-theorem lifecycle_leak_free (c : HCfg) (cap : Nat) (m0 : Mem) (t0 : HashTable)
-    (hnew : (HashTable.new c cap m0).2.1 = some t0) (ops : List Op) :
-    ((t0.run c ops (HashTable.new c cap m0).2.2).2.2.1.destroy (t0.run c ops (HashTable.new c cap m0).2.2).2.2.2).live = m0.live ∧
-    ((t0.run c ops (HashTable.new c cap m0).2.2).2.2.1.destroy (t0.run c ops (HashTable.new c cap m0).2.2).2.2.2).fault = m0.fault := by
-  obtain ⟨_, _, n3, n4, _⟩ := HashTable.new_spec c cap m0
-  obtain ⟨_, q2, q3, q4, _, q6⟩ := n3 t0 hnew
-  obtain ⟨_, _, r3, r4, r5⟩ := history_refines c ops t0 (HashTable.new c cap m0).2.2 Map.empty q2 (by omega) (by rw [q3]; exact List.Perm.refl _)
-  obtain ⟨d1, d2⟩ := HashTable.destroy_spec c _ (t0.run c ops (HashTable.new c cap m0).2.2).2.2.2 r3 (by omega)
+schedule, destroy — every block is released exactly once (the ledger of the table's triple is back
+where it started) and nothing faults -/
+theorem lifecycle_leak_free (c : HCfg) (cap : Nat) (tr : Triple) (m0 : Mem) (t0 : HashTable)
+    (hnew : (HashTable.new c cap tr m0).2.1 = some t0) (ops : List Op) :
+    liveOf ((t0.run c ops (HashTable.new c cap tr m0).2.2).2.2.1.destroy (t0.run c ops (HashTable.new c cap tr m0).2.2).2.2.2) tr = liveOf m0 tr ∧
+    ((t0.run c ops (HashTable.new c cap tr m0).2.2).2.2.1.destroy (t0.run c ops (HashTable.new c cap tr m0).2.2).2.2.2).fault = m0.fault := by
+  obtain ⟨_, _, n3, n4, _⟩ := HashTable.new_spec c cap tr m0
+  obtain ⟨_, q2, q3, q4, _, q6, q7⟩ := n3 t0 hnew
+  obtain ⟨_, _, r3, r4, r5⟩ := history_refines c ops t0 (HashTable.new c cap tr m0).2.2 Map.empty q2 (by rw [q7]; omega) (by rw [q3]; exact List.Perm.refl _)
+  have hT := HashTable.run_triple c ops t0 (HashTable.new c cap tr m0).2.2
+  rw [q7] at r4 hT
+  obtain ⟨d1, d2⟩ := HashTable.destroy_spec c _ (t0.run c ops (HashTable.new c cap tr m0).2.2).2.2.2 r3 (by rw [hT]; omega)
+  rw [hT] at d1
   exact ⟨by omega, by rw [d2, r5]; exact n4⟩
+
+/-- the ledger precondition is re-established by every history (it is established by the
+constructor, see `new_history_refines`), so histories compose -/
+theorem history_keeps_owned (c : HCfg) (ops : List Op) (t : HashTable) (m : Mem)
+    (h : t.Inv c) (hl : t.size + 2 ≤ liveOf m t.triple) :
+    (t.run c ops m).2.2.1.size + 2 ≤ liveOf (t.run c ops m).2.2.2 (t.run c ops m).2.2.1.triple := by
+  have := (history_refines c ops t m t.abs h hl (List.Perm.refl _)).2.2.2.1
+  rw [HashTable.run_triple]; omega
+
+/-- **the failure oracle is pinned down**: with an allocator that never refuses, a history whose
+final capacity is below `MAX_POW_TWO` reports no failed insertion at all — the ideal map then needs
+no information from the run (`Map.run sp ops (replicate none)`); in general an insertion fails only
+when a refusal fired (`C08Hash.refused_iff`) or the capacity limit is reached -/
+theorem history_statuses_closed (c : HCfg) (ops : List Op) (t : HashTable) (m : Mem)
+    (h : t.Inv c) (hl : t.size + 2 ≤ liveOf m t.triple) (hs : m.sched = [])
+    (hcap : (t.run c ops m).2.2.1.capacity ≠ Gen.MAX_POW_TWO) :
+    (t.run c ops m).2.1 = List.replicate ops.length none ∧ t.capacity ≤ (t.run c ops m).2.2.1.capacity := by
+  induction ops generalizing t m with
+  | nil => exact ⟨rfl, Nat.le_refl _⟩
+  | cons op ops ih =>
+    obtain ⟨_, _, s3, s4, _⟩ := step_refines c t op m t.abs h hl (List.Perm.refl _)
+    have hT := HashTable.step_triple c t op m
+    simp only [HashTable.run] at hcap ⊢
+    obtain ⟨i1, i2⟩ := ih (t.step c op m).2.1 (t.step c op m).2.2 s3 (by rw [hT]; omega)
+      (HashTable.step_sched_nil c t op m hs) hcap
+    have hle := HashTable.step_capacity_le c t op m h hl
+    have hmax : (t.step c op m).2.1.capacity ≠ Gen.MAX_POW_TWO := by
+      intro he
+      obtain ⟨k, hk, hck⟩ := (history_refines c ops (t.step c op m).2.1 (t.step c op m).2.2 (t.step c op m).2.1.abs s3
+        (by rw [hT]; omega) (List.Perm.refl _)).2.2.1.1
+      have : (2 : Nat) ^ k ≤ 2 ^ 31 := Nat.pow_le_pow_right (by omega) (by omega)
+      have hM : Gen.MAX_POW_TWO = 2 ^ 31 := by decide
+      apply hcap
+      rw [hck] at i2 ⊢
+      omega
+    rw [HashTable.step_no_failure c t op m h hs hmax, i1]
+    exact ⟨by simp [List.replicate_succ], by omega⟩
+
+/-- **table operations interleaved with an iterator session.**  After any history, a fresh iterator
+driven by *any* program of `next`/`remove` calls (including `remove` before the first `next` and
+repeated `remove`) behaves like the ideal cursor over the map the history produced; the table then
+holds the cursor's map, satisfies the invariant and owns its blocks, so that any further history
+again refines the ideal map started from the cursor's map. -/
+theorem history_then_iterator (c : HCfg) (ops₁ ops₂ : List Op) (prog : List HashTable.IterOp) (t : HashTable) (m : Mem)
+    (h : t.Inv c) (hl : t.size + 2 ≤ liveOf m t.triple) :
+    let t₁ := (t.run c ops₁ m).2.2.1
+    let m₁ := (t.run c ops₁ m).2.2.2
+    let r := HashTable.iterRun c prog t₁ (t₁.iterInit m₁).1 m₁
+    let cur := (HashTable.Cursor.mk t₁.buckets.flatten none).run t₁.abs prog
+    t₁.abs.Perm (Map.run t.abs ops₁ (t.run c ops₁ m).2.1).2 ∧
+    r.1 = cur.1 ∧ r.2.1.abs = cur.2.2 ∧ r.2.1.Inv c ∧ r.2.2.2.fault = m.fault ∧
+    (r.2.1.run c ops₂ r.2.2.2).1 = (Map.run cur.2.2 ops₂ (r.2.1.run c ops₂ r.2.2.2).2.1).1 ∧
+    (r.2.1.run c ops₂ r.2.2.2).2.2.1.abs.Perm (Map.run cur.2.2 ops₂ (r.2.1.run c ops₂ r.2.2.2).2.1).2 ∧
+    (r.2.1.run c ops₂ r.2.2.2).2.2.2.fault = m.fault := by
+  dsimp only
+  obtain ⟨_, a2, a3, a4, a5⟩ := history_refines c ops₁ t m t.abs h hl (List.Perm.refl _)
+  have hl₁ := history_keeps_owned c ops₁ t m h hl
+  have hrel := HashTable.iterInit_curRel c (t.run c ops₁ m).2.2.1 (t.run c ops₁ m).2.2.2 a3
+  obtain ⟨b1, b2, b3, b4, b5, b6, b7⟩ := HashTable.iterRun_refines c prog (t.run c ops₁ m).2.2.1
+    ((t.run c ops₁ m).2.2.1.iterInit (t.run c ops₁ m).2.2.2).1 (t.run c ops₁ m).2.2.2 _ a3 hrel hl₁
+  have hl₂ := b6
+  rw [← b7] at hl₂ hl₁
+  obtain ⟨c1, c2, _, _, c5⟩ := history_refines c ops₂ _
+    (HashTable.iterRun c prog (t.run c ops₁ m).2.2.1 ((t.run c ops₁ m).2.2.1.iterInit (t.run c ops₁ m).2.2.2).1 (t.run c ops₁ m).2.2.2).2.2.2
+    _ b3 (by omega) (by rw [b2])
+  exact ⟨a2, b1, b2, b3, by rw [b5]; exact a5, c1, c2, by rw [c5, b5]; exact a5⟩
 
 /-! ## The property in its own vocabulary (facts about the ideal map) -/
 
@@ -179,7 +249,8 @@ theorem get_after_add (c : HCfg) (t : HashTable) (k : Key) (v : Nat) (m m' : Mem
     Map.lookup_perm b1 (abs_wf c _ a1), Map.lookup_insert]
 
 /-- after `remove k`, `get k` reports `CC_ERR_KEY_NOT_FOUND` and every other key is untouched -/
-theorem get_after_remove (c : HCfg) (t : HashTable) (k : Key) (m m' : Mem) (k' : Key) (h : t.Inv c) (hl : 0 < m.live) :
+theorem get_after_remove (c : HCfg) (t : HashTable) (k : Key) (m m' : Mem) (k' : Key) (h : t.Inv c)
+    (hl : (Map.lookup t.abs k).isSome = true → 0 < liveOf m t.triple) :
     ((t.remove c k m).2.2.1.get c k' m').2.1 = if k = k' then none else (t.get c k' m').2.1 := by
   obtain ⟨p1, p2, _⟩ := HashTable.remove_spec c t k m h hl
   rw [(HashTable.get_refines c _ k' m' p1).1, (HashTable.get_refines c t k' m' h).1, p2, Map.lookup_erase]
@@ -187,7 +258,7 @@ theorem get_after_remove (c : HCfg) (t : HashTable) (k : Key) (m m' : Mem) (k' :
 /-- resizing never loses, duplicates or misplaces an entry: the resized table satisfies the
 invariant (every entry in the bucket of its cached hash, keys distinct) and holds the same map -/
 theorem resize_keeps_map (c : HCfg) (t : HashTable) (m : Mem) (h : t.Inv c)
-    (hmax : t.capacity ≠ Gen.MAX_POW_TWO) (ha : m.alloc.1 = true) :
+    (hmax : t.capacity ≠ Gen.MAX_POW_TWO) (ha : (m.allocT t.triple).1 = true) :
     (t.resize c (t.capacity <<< 1) m).2.1.Inv c ∧ (t.resize c (t.capacity <<< 1) m).2.1.abs.Perm t.abs ∧
     (t.resize c (t.capacity <<< 1) m).2.1.size = t.size := by
   obtain ⟨_, s2, s3, s4, _⟩ := (HashTable.resize_spec c t m h hmax).2 ha
@@ -196,7 +267,7 @@ theorem resize_keeps_map (c : HCfg) (t : HashTable) (m : Mem) (h : t.Inv c)
 /-- independence of the hash function's quality: the statements above for the function that sends
 every key to the same bucket -/
 theorem constant_hash_history (thr agrow : Nat → Nat) (ops : List Op) (t : HashTable) (m : Mem)
-    (h : t.Inv ⟨fun _ => 7, thr, agrow⟩) (hl : t.size + 2 ≤ m.live) :
+    (h : t.Inv ⟨fun _ => 7, thr, agrow⟩) (hl : t.size + 2 ≤ liveOf m t.triple) :
     (t.run ⟨fun _ => 7, thr, agrow⟩ ops m).1 = (Map.run t.abs ops (t.run ⟨fun _ => 7, thr, agrow⟩ ops m).2.1).1 :=
   (history_refines ⟨fun _ => 7, thr, agrow⟩ ops t m t.abs h hl (List.Perm.refl _)).1
 
@@ -207,12 +278,44 @@ theorem foreach_exact (c : HCfg) (t : HashTable) (m : Mem) (h : t.Inv c) :
   ⟨(HashTable.foreach_refines c t m h).1, (HashTable.foreach_refines c t m h).2.2.1⟩
 
 /-- `get_keys` / `get_values` return arrays holding exactly the keys / values of the map (NULL key
-as the NULL pointer).  `3 * size ≤ CC_MAX_ELEMENTS` always holds in an address space: it is
-`cc_array_new_conf`'s own overflow guard. -/
-theorem enumeration_exact (c : HCfg) (t : HashTable) (m : Mem) (h : t.Inv c) (hbig : 3 * t.size ≤ Gen.CC_MAX_ELEMENTS) :
+as the NULL pointer).  `8 * size ≤ CC_MAX_ELEMENTS` always holds in an address space: it is
+`cc_array_new_conf`'s own byte-size guard. -/
+theorem enumeration_exact (c : HCfg) (t : HashTable) (m : Mem) (h : t.Inv c) (hbig : 8 * t.size ≤ Gen.CC_MAX_ELEMENTS) :
     (∀ a, (t.getKeys c m).2.1 = some a → a.contents = (Map.keys t.abs).map encKey) ∧
     (∀ a, (t.getValues c m).2.1 = some a → a.contents = Map.vals t.abs) :=
   ⟨fun a ha => (HashTable.getKeys_spec c t m h a hbig ha).1, fun a ha => (HashTable.getValues_spec c t m h a hbig ha).1⟩
+
+/-- a pointer read back from a key array: `0` is the NULL key -/
+def decKey (n : Nat) : Key := if n = 0 then none else some n
+
+/-- `encKey` sends both the NULL key and a (hypothetical) non-NULL key with pointer value 0 to the NULL
+pointer; a real table has no such key — a non-NULL key *is* a non-zero pointer.  Under that
+precondition the key array determines the key set exactly: decoding it gives back `Map.keys`. -/
+theorem enumeration_exact_keys (c : HCfg) (t : HashTable) (m : Mem) (h : t.Inv c) (hbig : 8 * t.size ≤ Gen.CC_MAX_ELEMENTS)
+    (hnz : some 0 ∉ Map.keys t.abs) (a : DArr) (ha : (t.getKeys c m).2.1 = some a) :
+    a.contents.map decKey = Map.keys t.abs := by
+  rw [(HashTable.getKeys_spec c t m h a hbig ha).1, List.map_map]
+  have : ∀ k ∈ Map.keys t.abs, (decKey ∘ encKey) k = k := by
+    intro k hk
+    cases k with
+    | none => rfl
+    | some n =>
+      have hn : n ≠ 0 := fun h0 => hnz (h0 ▸ hk)
+      simp [decKey, encKey, hn]
+  conv => rhs; rw [← List.map_id (Map.keys t.abs)]
+  exact List.map_congr_left this
+
+/-- when the enumeration succeeds: on a non-empty table `get_keys`/`get_values` fail only when the
+allocator refuses (with an empty schedule they return `CC_OK` and an array) -/
+theorem enumeration_succeeds (c : HCfg) (t : HashTable) (m : Mem) (h : t.Inv c) (hpos : 0 < t.size)
+    (hbig : 8 * t.size ≤ Gen.CC_MAX_ELEMENTS) (hs : m.sched = []) :
+    (t.getKeys c m).1 = .ok ∧ (t.getKeys c m).2.1.isSome = true ∧
+    (t.getValues c m).1 = .ok ∧ (t.getValues c m).2.1.isSome = true := by
+  have hw := HashTable.walk_eq t h.2.1
+  have hsz := h.2.2.1
+  have k := ((HashTable.collect_spec c t (t.walk.map (fun e => encKey e.key)) m h (by rw [hw, List.length_map]; omega) hbig).2 hpos).2.2.2.2 hs
+  have v := ((HashTable.collect_spec c t (t.walk.map (·.value)) m h (by rw [hw, List.length_map]; omega) hbig).2 hpos).2.2.2.2 hs
+  exact ⟨k, (HashTable.collect_ok_iff c t _ m).mp k, v, (HashTable.collect_ok_iff c t _ m).mp v⟩
 
 /-- on an empty table `get_keys`/`get_values` report `CC_ERR_INVALID_CAPACITY` (the array
 constructor refuses capacity 0) and allocate nothing -/
@@ -228,7 +331,7 @@ theorem enumeration_empty (c : HCfg) (t : HashTable) (m : Mem) (h : t.Inv c) (h0
 
 /-- `cc_hashset_add` / `remove` / `contains` / `remove_all` are the ideal set operations, for every
 hash function and every element including NULL -/
-theorem set_step_refines (c : HCfg) (s : HashSet) (e : Key) (m : Mem) (h : s.Inv c) (hl : 0 < m.live) :
+theorem set_step_refines (c : HCfg) (s : HashSet) (e : Key) (m : Mem) (h : s.Inv c) (hl : 0 < liveOf m s.triple) :
     ((s.add c e m).1 = .ok → (s.add c e m).2.1.abs.Perm (Set.insert s.abs e)) ∧
     ((s.add c e m).1 ≠ .ok → (s.add c e m).2.1.abs.Perm s.abs) ∧
     (s.remove c e m).2.2.1.abs = Set.erase s.abs e ∧
@@ -236,7 +339,7 @@ theorem set_step_refines (c : HCfg) (s : HashSet) (e : Key) (m : Mem) (h : s.Inv
     (s.contains c e m).1 = s.abs.contains e ∧
     (s.add c e m).2.1.Inv c ∧ (s.remove c e m).2.2.1.Inv c := by
   obtain ⟨a1, a2, a3, _⟩ := HashSet.add_spec c s e m h
-  obtain ⟨r1, r2, r3, _⟩ := HashSet.remove_spec c s e m h hl
+  obtain ⟨r1, r2, r3, _⟩ := HashSet.remove_spec c s e m h (fun _ => hl)
   exact ⟨fun hok => (a2 hok).1, fun hne => (a3 hne).2.1, r2, r3, (HashSet.contains_refines c s e m h).1, a1, r1⟩
 
 /-- the set holds no element twice and reports its cardinality -/
@@ -249,15 +352,15 @@ theorem set_wf (c : HCfg) (s : HashSet) (h : s.Inv c) : Set.WF s.abs ∧ s.size 
 
 /-- one call on the set refines one step of the ideal set -/
 theorem set_step_history (c : HCfg) (s : HashSet) (op : Set.Op) (m : Mem) (sp : Set)
-    (h : s.Inv c) (hl : s.size + 3 ≤ m.live) (hs : s.abs.Perm sp) :
+    (h : s.Inv c) (hl : s.size + 3 ≤ liveOf m s.triple) (hs : s.abs.Perm sp) :
     (s.step c op m).1 = (Set.step sp op (HashSet.failedOf op (s.step c op m).1)).1 ∧
     (s.step c op m).2.1.abs.Perm (Set.step sp op (HashSet.failedOf op (s.step c op m).1)).2 ∧
     (s.step c op m).2.1.Inv c ∧
-    (s.step c op m).2.2.live + s.size = m.live + (s.step c op m).2.1.size ∧
+    liveOf (s.step c op m).2.2 s.triple + s.size = liveOf m s.triple + (s.step c op m).2.1.size ∧
     (s.step c op m).2.2.fault = m.fault := by
   cases op with
   | add e =>
-    obtain ⟨a1, a2, a3, a4⟩ := HashSet.add_spec c s e m h
+    obtain ⟨a1, a2, a3, a4, _⟩ := HashSet.add_spec c s e m h
     simp only [HashSet.step]
     by_cases hok : (s.add c e m).1 = .ok
     · obtain ⟨b1, b2, b3⟩ := a2 hok
@@ -276,7 +379,7 @@ theorem set_step_history (c : HCfg) (s : HashSet) (op : Set.Op) (m : Mem) (sp : 
     rw [g1, g2, HashSet.set_contains_perm hs e]
     exact ⟨rfl, hs, h, rfl, rfl⟩
   | remove e =>
-    obtain ⟨p1, p2, p3, p4, p5, p6⟩ := HashSet.remove_spec c s e m h (by omega)
+    obtain ⟨p1, p2, p3, p4, p5, p6, _⟩ := HashSet.remove_spec c s e m h (fun _ => by omega)
     simp only [HashSet.step, Set.step]
     rw [p3, HashSet.set_contains_perm hs e]
     rw [HashSet.set_contains_perm hs e] at p3
@@ -294,38 +397,40 @@ theorem set_step_history (c : HCfg) (s : HashSet) (op : Set.Op) (m : Mem) (sp : 
       refine ⟨trivial, ?_, p1, by omega, p6⟩
       rw [p2]; exact HashSet.set_erase_perm hs e
   | removeAll =>
-    obtain ⟨r1, r2, r3, r4, r5⟩ := HashSet.removeAll_spec c s m h (by omega)
+    obtain ⟨r1, r2, r3, r4, r5, _⟩ := HashSet.removeAll_spec c s m h (by omega)
     simp only [HashSet.step, Set.step]
     exact ⟨trivial, by rw [r2], r1, by omega, r5⟩
 
 /-- **C02 for the set, all histories.** -/
 theorem set_history_refines (c : HCfg) (ops : List Set.Op) (s : HashSet) (m : Mem) (sp : Set)
-    (h : s.Inv c) (hl : s.size + 3 ≤ m.live) (hs : s.abs.Perm sp) :
+    (h : s.Inv c) (hl : s.size + 3 ≤ liveOf m s.triple) (hs : s.abs.Perm sp) :
     (s.run c ops m).1 = (Set.run sp ops (s.run c ops m).2.1).1 ∧
     (s.run c ops m).2.2.1.abs.Perm (Set.run sp ops (s.run c ops m).2.1).2 ∧
     (s.run c ops m).2.2.1.Inv c ∧
-    (s.run c ops m).2.2.2.live + s.size = m.live + (s.run c ops m).2.2.1.size ∧
+    liveOf (s.run c ops m).2.2.2 s.triple + s.size = liveOf m s.triple + (s.run c ops m).2.2.1.size ∧
     (s.run c ops m).2.2.2.fault = m.fault := by
   induction ops generalizing s m sp with
   | nil => exact ⟨rfl, hs, h, rfl, rfl⟩
   | cons op ops ih =>
     obtain ⟨s1, s2, s3, s4, s5⟩ := set_step_history c s op m sp h hl hs
-    obtain ⟨i1, i2, i3, i4, i5⟩ := ih (s.step c op m).2.1 (s.step c op m).2.2 _ s3 (by omega) s2
+    have hT := (HashSet.step_triple c s op m).1
+    obtain ⟨i1, i2, i3, i4, i5⟩ := ih (s.step c op m).2.1 (s.step c op m).2.2 _ s3 (by rw [hT]; omega) s2
+    rw [hT] at i4
     simp only [HashSet.run, Set.run, List.headD_cons, List.tail_cons]
     refine ⟨by rw [← s1, ← i1], i2, i3, by omega, by rw [i5, s5]⟩
 
 /-- … and from the set constructor -/
-theorem set_new_history_refines (c : HCfg) (cap : Nat) (m0 : Mem) (s0 : HashSet)
-    (hnew : (HashSet.new c cap m0).2.1 = some s0) (ops : List Set.Op) :
-    (s0.run c ops (HashSet.new c cap m0).2.2).1 = (Set.run [] ops (s0.run c ops (HashSet.new c cap m0).2.2).2.1).1 ∧
-    (s0.run c ops (HashSet.new c cap m0).2.2).2.2.1.abs.Perm (Set.run [] ops (s0.run c ops (HashSet.new c cap m0).2.2).2.1).2 ∧
-    (s0.run c ops (HashSet.new c cap m0).2.2).2.2.2.fault = m0.fault := by
-  obtain ⟨_, _, n3, n4⟩ := HashSet.new_spec c cap m0
-  obtain ⟨_, q2, q3, q4⟩ := n3 s0 hnew
+theorem set_new_history_refines (c : HCfg) (cap : Nat) (tr : Triple) (m0 : Mem) (s0 : HashSet)
+    (hnew : (HashSet.new c cap tr m0).2.1 = some s0) (ops : List Set.Op) :
+    (s0.run c ops (HashSet.new c cap tr m0).2.2).1 = (Set.run [] ops (s0.run c ops (HashSet.new c cap tr m0).2.2).2.1).1 ∧
+    (s0.run c ops (HashSet.new c cap tr m0).2.2).2.2.1.abs.Perm (Set.run [] ops (s0.run c ops (HashSet.new c cap tr m0).2.2).2.1).2 ∧
+    (s0.run c ops (HashSet.new c cap tr m0).2.2).2.2.2.fault = m0.fault := by
+  obtain ⟨_, _, n3, n4⟩ := HashSet.new_spec c cap tr m0
+  obtain ⟨_, q2, q3, q4, q5⟩ := n3 s0 hnew
   have hsz : s0.size = 0 := by
     have := (set_wf c s0 q2).2
     rw [q3] at this; simpa using this
-  obtain ⟨r1, r2, _, _, r5⟩ := set_history_refines c ops s0 (HashSet.new c cap m0).2.2 [] q2 (by omega) (by rw [q3])
+  obtain ⟨r1, r2, _, _, r5⟩ := set_history_refines c ops s0 (HashSet.new c cap tr m0).2.2 [] q2 (by rw [q5]; omega) (by rw [q3])
   exact ⟨r1, r2, by rw [r5]; exact n4⟩
 
 
@@ -343,7 +448,7 @@ example : exTable.abs = [(none, 13), (some 1, 11), (some 2, 12)] := by decide
 example : ((exTable.run exCfg [.add (some 5) 50, .add (some 1) 99, .remove none, .get (some 1), .get none]
     { live := 5 }).1.map (·.val)) = [none, none, some 13, some 99, none] := by decide
 /-- three insertions into a table of capacity 1 with threshold `cap/2` resize it to capacity 8 -/
-example : ((HashTable.mk 1 0 0 [[]]).run ⟨fun k => k, fun cap => cap / 2, fun cap => cap * 2⟩
+example : ((HashTable.mk 1 0 0 [[]] .conf).run ⟨fun k => k, fun cap => cap / 2, fun cap => cap * 2⟩
     [.add (some 1) 1, .add (some 2) 2, .add none 3] { live := 2 }).2.2.1.capacity = 8 := by decide
 
 end CC.Properties.C02
